@@ -36,6 +36,7 @@ class Checked:
     mismatches: list = field(default_factory=list)  # (path, role, var, pos, code, spec)
     error: Optional[str] = None
     unusable: list = field(default_factory=list)
+    undefined: list = field(default_factory=list)  # (path, role, var, pos, kind, arg, sign)
 
     def env(self, p: Path) -> E.Env:
         return E.Env(p.n1)
@@ -89,9 +90,30 @@ def check_config(prog: Program, cfg: Config, compare=True) -> Checked:
     if compare:
         try:
             _compare(ck)
+            _definedness(ck)
         except AnalysisError as e:
             ck.error = f"comparison: {e}"
     return ck
+
+
+def _definedness(ck: Checked) -> None:
+    for p in ck.paths:
+        if p.raised is not None:
+            continue
+        nz = M.make_normalizer(ck.cfg)
+        env = E.Env(p.n1)
+        mapping, _ = M.assumption_substitution(p.assumptions, nz)
+        for role, outs in p.outputs.items():
+            for var, t in outs.items():
+                if not E.is_term(t):
+                    continue
+                t = M.subst(t, mapping)
+                try:
+                    for pos in E.positions(E.shape(t, env), env):
+                        for pr in M.definedness(t, pos, env, nz, M.model_zero_over_zero):
+                            ck.undefined.append((p.path, role, var, E._fpos(pos)) + tuple(pr))
+                except E.ShapeError:
+                    pass
 
 
 def _compare(ck: Checked) -> None:
